@@ -273,6 +273,59 @@ theorem split_topup_extend_conserve (p : Params) {s : State} (h : Inv s) :
       · rw [he]
         simp only [createLock, lockedOwner, fr.locks, total_append, total_single, w_own]
 
+/-- **until then no message by anyone moves them**: an account's locked total of a denom goes down
+    only at an EndBlocker (maturity, see `exit_only_to_owner_after_period`) or by that account's own
+    force-unlock while it is on the allow-list; no message of any other signer, and no lock /
+    begin-unlock / extend at all, lowers it -/
+theorem locked_total_decreases_only_when_due_or_forced (p : Params) {s : State} (h : Inv s) (op : Op)
+    (a d : Nat) (hdec : lockedOwner (step p s op).1.locks a d < lockedOwner s.locks a d) :
+    op = .endBlock ∨ ∃ id c, op = .force a id c ∧ a ∈ p.allowed := by
+  have htot := owner_total_step p h op a d
+  cases op with
+  | endBlock => exact Or.inl rfl
+  | beginBlock dt => exact absurd hdec (Nat.lt_irrefl _)
+  | unlock a0 id c =>
+    have := ((split_topup_extend_conserve p h).1 a0 id c a d).1
+    omega
+  | extend a0 id dur =>
+    have := ((split_topup_extend_conserve p h).2.1 a0 id dur a d).1
+    omega
+  | lock a0 d0 amt dur =>
+    simp only [step] at hdec
+    rcases lockTokens_cases p s a0 d0 amt dur with ⟨e, he⟩ | ⟨_, _, _, _, t, _, hc⟩
+    · rw [he] at hdec; exact absurd hdec (Nat.lt_irrefl _)
+    · have hok : ∃ id, (step p s (.lock a0 d0 amt dur)).2 = .ok id := by
+        simp only [step]
+        rcases hc with ⟨lt, _, he⟩ | ⟨_, he⟩ <;> (rw [he]; exact ⟨_, rfl⟩)
+      obtain ⟨id, hok⟩ := hok
+      have := (split_topup_extend_conserve p h).2.2 a0 d0 amt dur id hok a d
+      simp only [step] at this
+      omega
+  | force a0 id c =>
+    right
+    simp only [step] at hdec htot
+    rcases forceUnlock_cases p s a0 id c with ⟨e, he⟩ | ⟨lt, _, ho, ha, hv, hex, hc⟩
+    · rw [he] at hdec; exact absurd hdec (Nat.lt_irrefl _)
+    · by_cases haa : a = a0
+      · exact ⟨id, c, by rw [haa], by rw [haa]; exact ha⟩
+      · exfalso
+        have hne : ¬ (a = lt.owner ∧ d = lt.denom) := fun e => haa (by rw [e.1, ho])
+        rcases htot with ht | ⟨_, _, _, _, hop, _⟩
+        · rcases hc with ⟨_, t, ht', he⟩ | ⟨_, t, ht', he⟩
+          · obtain ⟨_, _, _, _, _, _, _, hb⟩ := fromModule_some ht'
+            rw [he] at hdec ht
+            have hb' := hb a d
+            simp only [if_neg hne] at hb'
+            simp only [shrinkLock] at hdec ht
+            omega
+          · obtain ⟨_, _, _, _, _, _, _, hb⟩ := fromModule_some ht'
+            rw [he] at hdec ht
+            have hb' := hb a d
+            simp only [if_neg hne] at hb'
+            simp only [removeLock] at hdec ht
+            omega
+        · cases hop
+
 /-- **durations only grow** (one step): a lock keeps its owner and denom, its duration never
     shrinks and changes only by its owner's `MsgExtendLockup` while it is not unlocking; once a
     lock is unlocking, its end time and duration are frozen -/
